@@ -95,6 +95,37 @@ theorem C08_readValue (zlib : Bytes → Option Bytes) (readFile : Nat → Option
   rw [hid, this]
   rfl
 
+/-- **Relations do not mix**: chunk ids are unique only within one TOAST relation.  With a reader that holds any
+number of other relations *before and after* the pointer's own — none of the earlier ones under the pointer's relation
+id, but with any chunks at all, in particular chunks carrying the same value id — `ReadValue` returns the original
+bytes of the value stored in the relation the pointer names. -/
+theorem C08_readValue_isolated (zlib : Bytes → Option Bytes) (readFile : Nat → Option Bytes) (lay : Layout) (hl : lay.WF)
+    (v : ToastValue) (hv : v.WF) (hs : lay.Stores v) (pre post : List (Nat × List Chunk)) (hasDir : Bool)
+    (hpre : ∀ t ∈ pre, t.1 ≠ v.relid) :
+    (do let chunks ← readTOASTTable (encToastRel lay)
+        let r ← readValue zlib readFile ⟨pre ++ (v.relid, chunks) :: post, hasDir⟩ (encExtPtr (ptrOf v))
+        pure r.1) = .ok (some v.content.original) := by
+  rw [readTOASTTable_layout lay hl]
+  simp only [ok_bind, readValue, parse_ptrOf v hv]
+  have hlk : List.lookup (mptr v).toastRelID (pre ++ (v.relid, lay.liveRows.map toChunk) :: post)
+      = some (lay.liveRows.map toChunk) := by
+    have hk : (mptr v).toastRelID = v.relid := rfl
+    rw [hk]
+    induction pre with
+    | nil => simp
+    | cons t pre ih =>
+      have ht : t.1 ≠ v.relid := hpre t (List.mem_cons_self ..)
+      have ht' : (v.relid == t.1) = false := by
+        simp only [beq_eq_false_iff_ne, ne_eq]; exact fun h => ht h.symm
+      obtain ⟨k, c⟩ := t
+      simp only [List.cons_append, List.lookup, ht']
+      exact ih (fun u hu => hpre u (List.mem_cons_of_mem _ hu))
+  simp only [hlk, Option.isNone_some, Bool.false_and, Bool.false_eq_true, if_false, pure_eq_ok, ok_bind]
+  have := reassemble_value zlib (lay.liveRows.map toChunk) v hv (by rw [List.filter_map]; exact hs.map toChunk)
+  have hid : (mptr v).valueID = v.id := rfl
+  rw [hid, this]
+  rfl
+
 /-- Reassembly from ANY well-formed heap file (the general form of `C08_reassemble`): blocks = formatted pages with
 pointers in any state, tuples anywhere on the page with junk between them, all-zero blocks, a trailing partial block;
 the only assumption is that the data areas of the LIVE tuples are rows of a TOAST relation (dead tuples may hold anything)
